@@ -25,8 +25,14 @@ INSTANCES = [
     inst('c1p1_int', 1, 1, 0, 0, 5, thorough={'steps': 8}),
     inst('c1p2_int', 1, 2, 0, 0, 5, thorough={'steps': 7}),
     inst('c2p1_int', 2, 1, 0, 0, 5, thorough={'steps': 7}),
-    inst('c1p1_obj', 1, 1, 1, 1, 5, thorough={'steps': 8}),
+    inst('c1p1_obj', 1, 1, 1, 1, 5, thorough={'steps': 7}),
     inst('c2p1_obj', 2, 1, 1, 1, 4, thorough={'steps': 6}),
     inst('c2p2_int', 2, 2, 0, 0, 6, tiers=('thorough',)),
     inst('c1p2_obj', 1, 2, 1, 1, 6, tiers=('thorough',)),
 ]
+# Reproducer for an engine problem (not part of any tier): consumers draw their op kinds themselves; the
+# model logs those inputs in slot order, the native replay consumes them in baton order, so some of the
+# (genuine) counterexamples do not reproduce.  ./check C24 --tier repro
+_r = inst('repro_thread_inputs', 2, 1, 1, 1, 4, tiers=('repro',))
+_r['defs']['VF_KINDS_IN_THREADS'] = 1
+INSTANCES.append(_r)
